@@ -1,2 +1,6 @@
 import Pxv.Model.Body
 import Pxv.Thm.C14
+import Pxv.Model.Ty
+import Pxv.Model.TySpec
+import Pxv.Model.TyParse
+import Pxv.Thm.C17
